@@ -861,11 +861,15 @@ class _Run:
         pit = T.peel(it)
         if tag(it) == 'call' and it[1] == ('g', 'builtins.enumerate') and it[2] and \
                 isinstance(tgt, (ast.Tuple, ast.List)) and len(tgt.elts) == 2:
-            self.ex.loops[lid].iter = it[2][0]
-            self.ex.loops[lid].kind = 'enumerate'
-            self.assign(tgt.elts[0], ('lv', lid, 'idx'), st, s)
-            self.assign(tgt.elts[1], ('lv', lid, 'elem'), st, s)
-            return
+            start = it[2][1] if len(it[2]) > 1 else dict(it[3]).get('start', C(0))
+            if T.is_const(start) and isinstance(start[1], int):
+                self.ex.loops[lid].iter = it[2][0]
+                self.ex.loops[lid].kind = 'enumerate'
+                # enumerate(x, start=k) counts from k: position + k
+                idx = ('lv', lid, 'idx') if start[1] == 0 else T.mk_bin('+', ('lv', lid, 'idx'), start)
+                self.assign(tgt.elts[0], idx, st, s)
+                self.assign(tgt.elts[1], ('lv', lid, 'elem'), st, s)
+                return
         if tag(pit) in ('list', 'tuple') and len(pit[1]) == 1 and isinstance(tgt, ast.Name):
             # singleton literal: the loop variable *is* that element
             st.env[tgt.id] = pit[1][0]
@@ -1582,8 +1586,12 @@ class _Run:
             while tag(r) == 'vals' or (tag(r) == 'mcall' and r[2] in ('to_numpy', 'to_list') and not r[3]):
                 r = r[1]
             return ('call', ('g', f'numpy.{name}'), (r,), ())
-        if name == 'copy' and not args and dict(kws) == {'deep': T.TRUE} and tag(recv) not in ('dict', 'list', 'g'):
-            return ('call', ('g', 'copy.deepcopy'), (recv,), ())        # frame.copy(deep=True) is what deepcopy(frame) does
+        if name == 'copy' and not args and dict(kws) == {'deep': T.TRUE} and tag(recv) not in ('dict', 'list', 'g') and \
+                tag(T.root(recv)) == 'attr' and tag(recv) in ('attr', 'col', 'cols', 'mask', 'rows', 'upd', 'mcall'):
+            # frame.copy(deep=True) is what deepcopy(frame) does - for an object known to be a frame (an attribute of the
+            # chunk or something selected from it); on an argument that has not been validated yet the two differ
+            # (None.copy is an AttributeError, deepcopy(None) is None: C08-R4)
+            return ('call', ('g', 'copy.deepcopy'), (recv,), ())
         if name == 'drop' and not args:
             kw = dict(kws)
             if set(kw) <= {'index', 'inplace'} and 'index' in kw:
